@@ -102,7 +102,7 @@ def run_config(cfg, shapes, quick, seed, part, full_grid_shapes=()):
             continue
         t_ref = (pb.T0 - 3.25) if sh["tref"] and cfg["n_offsets"] == 0 else None
         data, dd = pb.make_data(n=sh["n"], layout=sh["layout"], err=sh["err"], unit=sh["unit"], t_ref=t_ref, seed=seed,
-                                n_surveys=cfg["n_offsets"] + 1, t_ref_scale=("utc" if sh["n"] % 2 else "tcb"), mixed_units=bool(sh["tref"]))
+                                n_surveys=cfg["n_offsets"] + 1, t_ref_scale=("utc" if sh["n"] % 2 else "tcb"), interleave=(not sh["tref"]), mixed_units=bool(sh["tref"]))
         problem = pb.ref_problem(dd, dec)
         sigbar = float(np.mean(dd["sig"]))
         theta = theta_grid(quick, seed, sigbar, full=(si in full_grid_shapes))
@@ -173,7 +173,7 @@ def run_case(case, part):
     prior, dec = pb.make_prior(cache=False, **prior_kwargs(cfg))
     t_ref = (pb.T0 - 3.25) if sh["tref"] and cfg["n_offsets"] == 0 else None
     data, dd = pb.make_data(n=sh["n"], layout=sh["layout"], err=sh["err"], unit=sh["unit"], t_ref=t_ref, seed=case.get("seed", 0),
-                            n_surveys=cfg["n_offsets"] + 1, t_ref_scale=("utc" if sh["n"] % 2 else "tcb"), mixed_units=bool(sh["tref"]))
+                            n_surveys=cfg["n_offsets"] + 1, t_ref_scale=("utc" if sh["n"] % 2 else "tcb"), interleave=(not sh["tref"]), mixed_units=bool(sh["tref"]))
     theta = np.atleast_2d(np.array(case["theta"], dtype=float))
     impl = np.array(tj.TheJoker(prior).marginal_ln_likelihood(data, pb.make_samples(theta), in_memory=True))
     th_ref = theta.copy()
@@ -190,8 +190,8 @@ def main():
         PID, "exploration",
         "full product of prior configurations (poly_trend 1..3 x n_offsets 0..2 x K prior {default, default with cap active, custom "
         "Normal} x prior means {zero, non-zero distinct} x prior velocity unit x period-prior unit; quick: a 24-configuration covering "
-        "subset) x data shapes (N in {1,2,3,5,(8)} x time layout x error scale x data unit x t_ref; multi-survey data time-disjoint, half of the "
-        "shapes with surveys delivered in different equivalent units) x theta grid (5 P x 5 e (+2 "
+        "subset) x data shapes (N in {1,2,3,5,(8)} x time layout x error scale x data unit x t_ref; multi-survey data: half of the "
+        "shapes with surveys delivered in different equivalent units, the other half interleaved in time) x theta grid (5 P x 5 e (+2 "
         "finiteness-only) x omega x M0 x 3 jitters, all paths in_memory / object cache / file), each value compared with the closed-form "
         "marginal (long-double Cholesky of B, declared prior). Non-trivial = rows that pass the exact band (a stride-7 sample of them is "
         "hashed); other rows are attributed to an open kernel finding by its defect twin or reported.",
